@@ -95,6 +95,13 @@ ReModes == {"huge", "explicit", "padmask", "tail"}
 Huge2(l) == <<255, l % 256, (l \div 256) % 256, (l \div 65536) % 256, (l \div 16777216) % 256, 0, 0, 0, 0>>
 SizeM(l, m) == IF m = "huge" THEN Huge2(l) ELSE Size2(l)
 Junk == <<7, 0, 9>>
+(* not re-encodings but hostile inputs (C08): every element count is replaced by a large one
+   (3-byte form: 65789 elements, 9-byte form: 2^20) while all byte sizes stay consistent with
+   the bytes actually present, so only the count-versus-remaining-bytes rule can refuse it *)
+CountModes == {"count3", "count9"}
+CountM(l, m) == CASE m = "count3" -> <<254, 255, 255>>
+                  [] m = "count9" -> <<255, 0, 0, 16, 0, 0, 0, 0, 0>>
+                  [] OTHER -> SizeM(l, m)
 
 RECURSIVE Enc2M(_, _, _, _)
 RECURSIVE Pieces2M(_, _, _, _, _)
@@ -150,8 +157,9 @@ Enc2M(tn, v, opt, m) ==
     [] t.k = "union"  ->
          LET vt == TY(t.variants[v.i]) IN SizedM(Body2M(Pieces2M(vt, v.v, 1, <<>>, m), v.i - 1, m), opt, m)
     [] t.k \in {"array", "dict"} ->
-         IF Len(v) = 0 THEN (IF opt THEN <<>> ELSE IF m = "tail" THEN SizeM(1 + Len(Junk), m) \o <<0>> \o Junk ELSE SizeM(0, m))
-         ELSE LET body == SizeM(Len(v), m) \o
+         IF Len(v) = 0 /\ m \in CountModes THEN SizeM(Len(CountM(0, m)), m) \o CountM(0, m)
+         ELSE IF Len(v) = 0 THEN (IF opt THEN <<>> ELSE IF m = "tail" THEN SizeM(1 + Len(Junk), m) \o <<0>> \o Junk ELSE SizeM(0, m))
+         ELSE LET body == CountM(Len(v), m) \o
                           (IF IsBitElem(t.elem.t) THEN BitsEnc(v) ELSE ElemBytes2M(t, v, 1, m))
                           \o (IF m = "tail" THEN Junk ELSE <<>>)
               IN SizeM(Len(body), m) \o body
